@@ -478,10 +478,11 @@ func c20RaftProperty(t *rapid.T) {
 		// leader-crash episode: the replica that accepted (and proposed) the transactions goes down shortly afterwards,
 		// while its entries may be appended on the others but not committed yet
 		leaderCrash := !noCrash && size == 3 && (rapid.IntRange(0, 2).Draw(t, "leaderCrash") == 0 || forceLC)
-		if leaderCrash && rapid.Bool().Draw(t, "slowGossip") {
+		slowGossip := leaderCrash && rapid.IntRange(0, 2).Draw(t, "slowGossip") != 0
+		if slowGossip {
 			// ... and the gossip of these transactions is slow: the others see them in a log entry first and get the
 			// broadcast after the leader change
-			d := time.Duration(rapid.IntRange(150, 500).Draw(t, "gossipDelayMs")) * time.Millisecond
+			d := time.Duration(rapid.IntRange(150, 600).Draw(t, "gossipDelayMs")) * time.Millisecond
 			net.mu.Lock()
 			net.holdTxUntil = time.Now().Add(d)
 			net.mu.Unlock()
@@ -494,7 +495,11 @@ func c20RaftProperty(t *rapid.T) {
 		ops = append(ops, fmt.Sprintf("round %d: %d transactions via replica %d (next nonces %v) @%dms", rd, cnt, entry.id, next, time.Since(processStart).Milliseconds()))
 		if leaderCrash {
 			// mostly within a heartbeat interval (20 ms): the followers hold the last entry but have not heard of its commit
-			time.Sleep(time.Duration(rapid.SampledFrom([]int{0, 1, 2, 3, 5, 8, 12, 20, 40, 80, 120}).Draw(t, "shortWaitMs")) * time.Millisecond)
+			waits := []int{0, 1, 2, 3, 5, 8, 12, 20, 40, 80, 120}
+			if slowGossip {
+				waits = waits[:8]
+			}
+			time.Sleep(time.Duration(rapid.SampledFrom(waits).Draw(t, "shortWaitMs")) * time.Millisecond)
 		} else {
 			if healEarly {
 				// connected again while the executor of the replica that was cut off may still be busy
